@@ -57,12 +57,10 @@ fn fwd(op: &Op, _ctx: &dyn Context, operands: &mut dyn CoordinateSet) -> usize {
     // (the arguments of asin are clamped: at alpha = 90 the second one is 1 in
     // exact arithmetic, but may round to 1 + ulp, giving NaN)
     let gamma_0 = (alpha.sin() / D).clamp(-1.0, 1.0).asin();
-    let lambda_0 = if ninety {
-        // asin is ill-conditioned near 1: use its exact value
-        lonc - FRAC_PI_2.copysign(latc) / B
-    } else {
-        lonc - (G * gamma_0.tan()).clamp(-1.0, 1.0).asin() / B
-    };
+    // asin(G*tan(gamma_0)) in a form that keeps its digits where the argument
+    // approaches +/-1, i.e. for azimuths around +/-90: with sin(gamma_0) = sin(alpha)/D
+    // and G*G = D*D - 1, it equals atan2(G*sin(alpha), D*|cos(alpha)|)
+    let lambda_0 = lonc - (G * alpha.sin()).atan2(D * alpha.cos().abs()) / B;
 
     // (uc, vc): Intermediate coordinates of the projection center
     // let vc = 0.0;
@@ -160,12 +158,10 @@ fn inv(op: &Op, _ctx: &dyn Context, operands: &mut dyn CoordinateSet) -> usize {
     // (the arguments of asin are clamped: at alpha = 90 the second one is 1 in
     // exact arithmetic, but may round to 1 + ulp, giving NaN)
     let gamma_0 = (alpha.sin() / D).clamp(-1.0, 1.0).asin();
-    let lambda_0 = if ninety {
-        // asin is ill-conditioned near 1: use its exact value
-        lonc - FRAC_PI_2.copysign(latc) / B
-    } else {
-        lonc - (G * gamma_0.tan()).clamp(-1.0, 1.0).asin() / B
-    };
+    // asin(G*tan(gamma_0)) in a form that keeps its digits where the argument
+    // approaches +/-1, i.e. for azimuths around +/-90: with sin(gamma_0) = sin(alpha)/D
+    // and G*G = D*D - 1, it equals atan2(G*sin(alpha), D*|cos(alpha)|)
+    let lambda_0 = lonc - (G * alpha.sin()).atan2(D * alpha.cos().abs()) / B;
 
     // (uc, vc): Intermediate coordinates of the projection center
     // let vc = 0.0;
@@ -236,7 +232,7 @@ pub const GAMUT: [OpParameter; 10] = [
     OpParameter::Real { key: "lonc",  default: Some(0_f64) },
 
     // Azimuth of the initial line
-    OpParameter::Real { key: "alpha",  default: Some(f64::NAN) },
+    OpParameter::Real { key: "alpha",  default: None },
 
     // Angle from the rectified grid to the oblique grid (Hotine only)
     OpParameter::Real { key: "gamma_c",  default: Some(f64::NAN) },
